@@ -37,6 +37,11 @@ RULE = ("case = parameter grid (0..3 unpacked parameters as lists or arrays "
         "numpy.bool_) + skip pattern + mode; "
         "non-trivial = at least 2 variations and (at least one skip or an "
         "early stop before rep_max); distinct = SHA-1 of the case")
+RULE += (" Added after the white-box review: "
+         "optionally one variation with a dense skip pattern (only "
+         "every m-th attempt valid, m up to 60); the per-combination "
+         "hooks are logged ")
+
 ASSUMPTIONS = [
     "_keep_going predicates are pure functions of (merged results, "
     "repetition index), as the documentation requires",
